@@ -140,7 +140,7 @@ func cmdRun(args []string) int {
 			continue
 		}
 		anyHarness = true
-		ec := gosym.ExploreConfig{Workers: *workers, MaxPaths: 20000, TimeoutMs: 60000, Verbose: *verbose}
+		ec := gosym.ExploreConfig{Workers: *workers, MaxPaths: 60000, TimeoutMs: 60000, Verbose: *verbose}
 		if tierN == 1 {
 			ec.MaxPaths = 400000
 			ec.TimeoutMs = 300000
@@ -166,6 +166,9 @@ func cmdRun(args []string) int {
 	if !anyHarness {
 		fmt.Fprintf(os.Stderr, "vcheck: no harness for %s\n", *prop)
 		return 2
+	}
+	if ev.Violations > 0 {
+		exit = 1 // a replayed violation decides the verdict, whatever else stayed inconclusive
 	}
 	ev.WallS = time.Since(t0).Seconds()
 	if err := ev.write(filepath.Join(verifDir, "evidence", *prop+".json")); err != nil {
